@@ -76,6 +76,19 @@ class Dirty:
         self.fn, self.bb, self.kind, self.pos, self.what, self.span, self.site_term, self.order = fn, bb, kind, pos, what, span, site_term, order
 
 
+def _same_kind_store(f, Q, t):
+    """t is `source.store` with `source` a parameter of type &Q / Q (the same queue kind as the body being analysed)"""
+    t = strip(t)
+    while t[0] in ("ref", "deref"):
+        t = strip(t[1])
+    if t[0] == "field" and t[2] == "store" and t[3] == Q:
+        b = strip(t[1])
+        while b[0] in ("ref", "deref"):
+            b = strip(b[1])
+        return b[0] == "param"
+    return False
+
+
 def dirty_events(view, Q, f):
     """dirty events in body f (a root function of queue kind Q or one of its closures)"""
     prog = view.prog
@@ -103,6 +116,8 @@ def dirty_events(view, Q, f):
                 out.append(Dirty(f, ev["bb"], "PRED", args[1], callee, ev["span"], site))
             elif callee == "store::Store::remove":
                 out.append(Dirty(f, ev["bb"], "REMOVED", ("field", ("some", site), 2, None), callee, ev["span"], site))
+            elif callee == "<store::Store as Clone>::clone_from" and len(args) >= 2 and _same_kind_store(f, Q, args[1]):
+                pass   # overwritten by a copy of the store of a queue of the SAME kind: ordered for this kind
             elif callee.startswith("store::Store::") or callee.startswith("<store::Store as"):
                 if callee not in STORE_CLEAN:
                     eff = fx.effects.get(callee, set())
@@ -751,7 +766,7 @@ def r_findmax(ctx, view):
             for x in facts:
                 val, cond = x[len("RETURN "):].split("  WHEN ", 1)
                 if cond_holds(cond, n):
-                    vals.add(render_return(val))
+                    vals.add(render_return(val, n))
             table[n] = sorted(vals)
             if want[n] == "Some(max{1,2})" and vals == {"Some(1)", "Some(2)"}:
                 # the explicit form: one comparison of the two children's priorities decides which is returned
@@ -776,7 +791,7 @@ def explicit_max(facts, n):
         val, cond = x[len("RETURN "):].split("  WHEN ", 1)
         if not cond_holds(cond, n):
             continue
-        r = render_return(val)
+        r = render_return(val, n)
         if r not in ("Some(1)", "Some(2)"):
             continue
         lits = [l for l in cond.split(" & ") if "plt(" in l]
@@ -832,9 +847,17 @@ def cond_holds(cond, n):
     return True
 
 
-def render_return(val):
+def render_return(val, n=None):
     if val.startswith("Option::None"):
         return "None"
+    if n is not None and "LEN" in val:
+        # a position computed from the length (`Position(len - 1)`), evaluated at the length under consideration
+        def ev(m):
+            k = int(m.group(2))
+            v = n - k if m.group(1).startswith("Sub") else n + k
+            return "%d_usize" % v if v >= 0 else m.group(0)
+        val = re.sub(r"(SubWithOverflow|SubUnchecked|Sub|AddWithOverflow|AddUnchecked|Add)\(LEN,(\d+)_usize\)(?:\.0)?", ev, val)
+        val = re.sub(r"(AddWithOverflow|AddUnchecked|Add)\((\d+)_usize,LEN\)(?:\.0)?", lambda m: "%d_usize" % (n + int(m.group(2))), val)
     m = re.match(r"^Option::Some\(Position::Position\((\d+)_usize\)\)$", val)
     if m:
         return "Some(%s)" % m.group(1)
